@@ -81,15 +81,19 @@ def impl_entry_dump(e, opclass):
                                b01(e.breaks_dependency_on_equal_operands), "-" if op is None else opclass.get(op, "?"))
 
 
-def check_databases(ctx, sems):
-    """returns {isa: encoded raw forms of the private copy}"""
+def operation_classes(ctx):
+    """{operation text: index of the first translated program equal to its program}"""
     rep = ctx.driver.ask1("rolesops")
     opclass = {}
     for tok in rep.split(" "):
         if tok:
             t, c = tok.rsplit(":", 1)
             opclass[core.unesc(t)] = c
-    forms_enc = {}
+    return opclass
+
+
+def check_generated(ctx):
+    """Gen/IsaDb_<isa> against the Lean loader on the raw YAML of the working tree"""
     for isa in ("x86", "aarch64"):
         pristine = load_raw(os.path.join(core.REPO, "osaca", "data", "isa", isa + ".yml")).get("instruction_forms") or []
         r = ctx.driver.ask1("rolesdbcmp %s %s" % (esc(isa), esc(yenc(pristine))))
@@ -97,18 +101,70 @@ def check_databases(ctx, sems):
         if not r.startswith("same "):
             ctx.correspondence_break("isa-db-translation", {"isa": isa, "reply": r,
                                                             "note": "Gen/IsaDb differs from the Lean loader on the raw YAML"})
-        private = load_raw(os.path.join(ctx.env.data, "isa", isa + ".yml")).get("instruction_forms") or []
-        forms_enc[isa] = esc(yenc(private))
-        r = ctx.driver.ask1("rolesdbdump %s %s" % (esc(isa), forms_enc[isa]))
-        model = [core.unesc(t) for t in r.split(" ")] if r not in ("load-error", "bad-request") else None
-        impl = [impl_entry_dump(e, opclass) for e in impl_entries(sems[isa]._isa_model)]
-        ctx.count("isa_entries_compared", len(impl))
-        if model != impl:
-            where = "reply " + r[:40] if model is None else next(
-                ("entry %d: model %s | impl %s" % (i, a, b) for i, (a, b) in enumerate(zip(model, impl)) if a != b),
-                "lengths %d / %d" % (len(model), len(impl)))
-            ctx.correspondence_break("isa-db-load", {"isa": isa, "first_difference": where})
-    return forms_enc
+
+
+def tie_database(ctx, isa, path, sem, opclass):
+    """the roles / hidden operands / idiom flags / operations the Lean loader produces from the YAML file at `path`
+    against what the implementation's ISA model (loaded from the same file) holds; returns the encoded raw forms"""
+    forms = load_raw(path).get("instruction_forms") or []
+    enc = esc(yenc(forms))
+    r = ctx.driver.ask1("rolesdbdump %s %s" % (esc(isa), enc))
+    model = [core.unesc(t) for t in r.split(" ")] if r not in ("load-error", "bad-request") else None
+    impl = [impl_entry_dump(e, opclass) for e in impl_entries(sem._isa_model)]
+    ctx.count("isa_entries_compared", len(impl))
+    if model != impl:
+        where = "reply " + r[:40] if model is None else next(
+            ("entry %d: model %s | impl %s" % (i, a, b) for i, (a, b) in enumerate(zip(model, impl)) if a != b),
+            "lengths %d / %d" % (len(model), len(impl)))
+        ctx.correspondence_break("isa-db-load", {"isa": isa, "file": os.path.basename(path), "first_difference": where})
+    return enc
+
+
+# --------------------------------------------------------------------------- synthetic entries with operations
+def zz_forms(rng, isa, optexts, n=14):
+    """synthetic ISA entries that carry one of the TRANSLATED operation strings on register / immediate forms with
+    arbitrary roles: exercises the operand numbering, the name map for repeated registers and `exec`"""
+    import re
+
+    forms = []
+    for i in range(n):
+        text = rng.choice(optexts)
+        need = max(int(m) for m in re.findall(r"op(\d+)", text))
+        nops = min(3, need + rng.choice([0, 0, 1]))
+        ops = []
+        for _ in range(max(nops, need)):
+            ops.append(("register" if rng.random() < 0.7 else "immediate",) + rng.choice([(True, False), (False, True), (True, True)]))
+        forms.append({"name": "zz" + "abcdefghijklmnopqrstuvwxyz"[i] + "x", "operands": ops, "operation": text})
+    return forms
+
+
+def zz_yaml(isa, forms):
+    out = []
+    for f in forms:
+        out += ["    - name: %s" % f["name"], "      operands:"]
+        for cls, s_, d in f["operands"]:
+            if cls == "register":
+                out += ['        - class: "register"', '          name: "gpr"' if isa == "x86" else '          prefix: "x"']
+            else:
+                out += ['        - class: "immediate"', '          imd: "int"']
+            out += ["          source: %s" % str(s_).lower(), "          destination: %s" % str(d).lower()]
+        out.append('      operation: "%s"' % f["operation"])
+    return "\n".join(out) + "\n"
+
+
+def zz_kernel(rng, isa, forms, n):
+    pool = rng.sample(["rax", "rbx", "rcx", "rdx", "rsi", "eax", "ebx"] if isa == "x86" else ["x1", "x2", "x3", "x4", "x5"], rng.choice([1, 2, 3]))
+    lines = []
+    for _ in range(n):
+        f = rng.choice(forms)
+        ops = []
+        for cls, _, _ in f["operands"]:
+            if cls == "register":
+                ops.append(("%" if isa == "x86" else "") + rng.choice(pool))
+            else:
+                ops.append(("$%d" if isa == "x86" else "#%d") % rng.choice([1, 8, 16, 64, 4095] + ([-8] if isa == "x86" else [])))
+        lines.append("%s %s" % (f["name"], ", ".join(ops)))
+    return lines
 
 
 # --------------------------------------------------------------------------- encoding of instructions
@@ -265,120 +321,143 @@ def extra_lines(rng, isa):
 
 
 # --------------------------------------------------------------------------- the correspondence
+class Tally:
+    def __init__(self):
+        self.breaks = 0
+
+
+def compare(ctx, isa, sem, parser, forms_enc, kernels, tally):
+    """implementation vs model, instruction by instruction, for the kernels [(lines, source)] of one ISA on one database"""
+    from osaca.semantics import INSTR_FLAGS
+
+    recs, ky, keys = [], [], Keys()
+    for lines, source in kernels:
+        try:
+            kernel = parser.parse_file("\n".join(lines))
+        except Exception:  # noqa  (a line the parser rejects: not this check's subject)
+            ctx.count("roles_unparsable_kernels")
+            continue
+        for ins in kernel:
+            ops = list(ins.operands or [])
+            opy = [operand_y(o, keys.of(o, p)) for p, o in enumerate(ops)]
+            explicit = {id(o): y[1] for o, y in zip(ops, opy)}
+            nflags = len(ins.flags)
+            try:
+                sem.assign_src_dst(ins)
+                so = ins.semantic_operands
+                impl = [";".join("|".join(semop_s(o, explicit) for o in so[k]) for k in ("source", "destination", "src_dst")),
+                        b01(INSTR_FLAGS.HAS_LD in ins.flags[nflags:]), b01(INSTR_FLAGS.HAS_ST in ins.flags[nflags:])]
+                ch = changes_s(lambda: sem.get_reg_changes(ins))
+                chp = changes_s(lambda: sem.get_reg_changes(ins, True))
+            except Exception as e:  # noqa
+                impl, ch, chp = ["raise:" + type(e).__name__, "", ""], "", ""
+            recs.append({"isa": isa, "line": ins.line, "kernel": lines, "source": source, "impl": impl, "ch": ch, "chp": chp,
+                         "unsupported": unsupported(opy), "mnemonic": ins.mnemonic})
+            ky.append([ins.mnemonic, opy])
+    if not recs:
+        return
+    rep = ctx.driver.ask1("roles %s %s %s" % (esc(isa), forms_enc, esc(yenc(ky))))
+    toks = rep.split(" ")
+    if len(toks) != len(recs):
+        ctx.correspondence_break("roles-driver", {"isa": isa, "reply": rep[:200], "instructions": len(recs)})
+        return
+
+    def norm(x):
+        return "raise" if x.startswith("raise:") else x
+
+    for rec, tok in zip(recs, toks):
+        ctx.count("roles_instructions")
+        if rec["mnemonic"] is None:
+            ctx.count("roles_non_instructions")
+        f = tok.split(";")
+        if len(f) != 7:
+            ctx.correspondence_break("roles-driver", {"isa": isa, "line": rec["line"], "reply": tok[:200]})
+            tally.breaks += 1
+            continue
+        m_sem, m_ld, m_st, m_ch, m_chp = ";".join(f[0:3]), f[3], f[4], f[5], f[6]
+        info = {"isa": isa, "line": rec["line"], "kernel": rec["kernel"], "generator": rec["source"]}
+        if f[2]:
+            ctx.count("roles_with_src_dst")
+        if ",H" in tok or "f," in tok:
+            ctx.count("roles_with_hidden")
+        if m_sem != rec["impl"][0]:
+            if tally.breaks < 6:
+                ctx.correspondence_break("assign_src_dst", dict(info, model=m_sem, impl=rec["impl"][0]))
+            tally.breaks += 1
+        elif (m_ld, m_st) != (rec["impl"][1], rec["impl"][2]):
+            if tally.breaks < 6:
+                ctx.correspondence_break("has_load/has_store", dict(info, model=[m_ld, m_st], impl=rec["impl"][1:]))
+            tally.breaks += 1
+        if rec["unsupported"] or m_ch == "unsupported" or m_chp == "unsupported":
+            ctx.count("roles_values_outside_model")
+            if not rec["unsupported"]:
+                if tally.breaks < 6:
+                    ctx.correspondence_break("get_reg_changes", dict(info, model=[m_ch, m_chp], note="model reports an unsupported value"))
+                tally.breaks += 1
+            continue
+        if m_ch.startswith("raise"):
+            ctx.count("reg_changes_raise")
+        elif any(not t.endswith("=~") for t in m_ch.split("|") if t):
+            ctx.count("reg_changes_known")
+        if m_chp:
+            ctx.count("reg_changes_postindexed")
+        if norm(m_ch) != norm(rec["ch"]):
+            if tally.breaks < 6:
+                ctx.correspondence_break("get_reg_changes", dict(info, model=m_ch, impl=rec["ch"]))
+            tally.breaks += 1
+        if norm(m_chp) != norm(rec["chp"]):
+            if tally.breaks < 6:
+                ctx.correspondence_break("get_reg_changes(only_postindexed)", dict(info, model=m_chp, impl=rec["chp"]))
+            tally.breaks += 1
+
+
 def run(ctx, syn_forms=None, volume=1.0):
     """One call from harness/props/c03.py (and c06.py).  `syn_forms`: the synthetic ISA entries of this run."""
     prove(ctx)
     from osaca.parser import ParserAArch64, ParserX86ATT
-    from osaca.semantics import INSTR_FLAGS, ISASemantics
+    from osaca.semantics import ISASemantics
     from harness import roles, synthisa
 
     rng = ctx.rng
-    sems = {"x86": ISASemantics("x86"), "aarch64": ISASemantics("aarch64")}
     parsers = {"x86": ParserX86ATT(), "aarch64": ParserAArch64()}
-    forms_enc = check_databases(ctx, sems)
-
-    n = int((400 if ctx.tier == "quick" else 4000) * volume * (3 if any(k == "proof" or k == "translator" for k, _, _ in ctx.broken) else 1))
-    kernels = []                                    # (isa, lines, source)
-    for t in range(n):
-        isa = "x86" if t % 2 == 0 else "aarch64"
-        kind = t % 11
-        if kind < 4:
-            gen = dgenc.gen_x86_kernel if isa == "x86" else dgenc.gen_a64_kernel
-            kernels.append((isa, gen(rng, rng.randint(2, 10), mem=True, npool=rng.choice([2, 3, 4])), "dgenc"))
-        elif kind < 5:
-            lines, _ = (dgenc.gen_memdep_x86 if isa == "x86" else dgenc.gen_memdep_a64)(rng)
-            kernels.append((isa, lines, "memdep"))
-        elif kind < 7:
-            lines, _ = roles.gen(rng, isa, rng.randint(2, 8), npool=rng.choice([2, 3, 4]))
-            kernels.append((isa, lines, "vocabulary"))
-        elif kind < 9 and syn_forms:
-            lines, _ = synthisa.gen_kernel(rng, syn_forms, rng.randint(2, 8), npool=rng.choice([2, 3]))
-            kernels.append(("x86", lines, "synthetic-isa"))
-        else:
-            kernels.append((isa, extra_lines(rng, isa), "targeted"))
-
-    breaks = 0
+    opclass = operation_classes(ctx)
+    check_generated(ctx)
+    weak = any(k in ("proof", "translator") for k, _, _ in ctx.broken)
+    n = int((400 if ctx.tier == "quick" else 4000) * volume * (3 if weak else 1))
+    tally = Tally()
     for isa in ("x86", "aarch64"):
-        recs, ky, keys = [], [], Keys()
-        for kid, (kisa, lines, source) in enumerate(kernels):
-            if kisa != isa:
-                continue
-            try:
-                kernel = parsers[isa].parse_file("\n".join(lines))
-            except Exception as e:  # noqa  (a line the parser rejects: not this check's subject)
-                ctx.count("roles_unparsable_kernels")
-                continue
-            for ins in kernel:
-                ops = list(ins.operands or [])
-                opy = [operand_y(o, keys.of(o, p)) for p, o in enumerate(ops)]
-                explicit = {id(o): y[1] for o, y in zip(ops, opy)}
-                flags0 = list(ins.flags)
-                try:
-                    sems[isa].assign_src_dst(ins)
-                    so = ins.semantic_operands
-                    impl = [";".join("|".join(semop_s(o, explicit) for o in so[k]) for k in ("source", "destination", "src_dst")),
-                            b01(INSTR_FLAGS.HAS_LD in ins.flags[len(flags0):]), b01(INSTR_FLAGS.HAS_ST in ins.flags[len(flags0):])]
-                    ch = changes_s(lambda: sems[isa].get_reg_changes(ins))
-                    chp = changes_s(lambda: sems[isa].get_reg_changes(ins, True))
-                except Exception as e:  # noqa
-                    impl, ch, chp = ["raise:" + type(e).__name__, "", ""], "", ""
-                recs.append({"isa": isa, "line": ins.line, "kernel": lines, "source": source, "impl": impl, "ch": ch, "chp": chp,
-                             "unsupported": unsupported(opy), "mnemonic": ins.mnemonic})
-                ky.append([ins.mnemonic, opy])
-        if not recs:
-            continue
-        rep = ctx.driver.ask1("roles %s %s %s" % (esc(isa), forms_enc[isa], esc(yenc(ky))))
-        toks = rep.split(" ")
-        if len(toks) != len(recs):
-            ctx.correspondence_break("roles-driver", {"isa": isa, "reply": rep[:200], "instructions": len(recs)})
-            continue
-        for rec, tok in zip(recs, toks):
-            ctx.count("roles_instructions")
-            if os.environ.get("ROLES_DEBUG") and ctx.rng.random() < 0.03:
-                print("DBG", rec["line"], "|", tok, "|", rec["impl"], rec["ch"], rec["chp"])
-            if rec["mnemonic"] is None:
-                ctx.count("roles_non_instructions")
-            f = tok.split(";")
-            if len(f) != 7:
-                ctx.correspondence_break("roles-driver", {"isa": isa, "line": rec["line"], "reply": tok[:200]})
-                breaks += 1
-                continue
-            m_sem, m_ld, m_st, m_ch, m_chp = ";".join(f[0:3]), f[3], f[4], f[5], f[6]
-            info = {"isa": isa, "line": rec["line"], "kernel": rec["kernel"], "generator": rec["source"]}
-            if f[2]:
-                ctx.count("roles_with_src_dst")
-            if "H" in tok or "f," in tok:
-                ctx.count("roles_with_hidden")
-            if m_sem != rec["impl"][0] and breaks < 6:
-                ctx.correspondence_break("assign_src_dst", dict(info, model=m_sem, impl=rec["impl"][0]))
-                breaks += 1
-            elif (m_ld, m_st) != (rec["impl"][1], rec["impl"][2]) and breaks < 6:
-                ctx.correspondence_break("has_load/has_store", dict(info, model=[m_ld, m_st], impl=rec["impl"][1:]))
-                breaks += 1
-            if rec["unsupported"] or m_ch == "unsupported" or m_chp == "unsupported":
-                ctx.count("roles_values_outside_model")
-                if not rec["unsupported"] and breaks < 6:
-                    ctx.correspondence_break("get_reg_changes", dict(info, model=[m_ch, m_chp], note="model reports an unsupported value"))
-                    breaks += 1
-                continue
-
-            def norm(s):
-                return "raise" if s.startswith("raise:") else s
-
-            if m_ch and "=~" not in m_ch.replace("=~:", "") and not m_ch.startswith("raise"):
-                ctx.count("reg_changes_known")
-            if m_ch.startswith("raise"):
-                ctx.count("reg_changes_raise")
-            if m_chp:
-                ctx.count("reg_changes_postindexed")
-            if norm(m_ch) != norm(rec["ch"]) and breaks < 6:
-                ctx.correspondence_break("get_reg_changes", dict(info, model=m_ch, impl=rec["ch"]))
-                breaks += 1
-            if norm(m_chp) != norm(rec["chp"]) and breaks < 6:
-                ctx.correspondence_break("get_reg_changes(only_postindexed)", dict(info, model=m_chp, impl=rec["chp"]))
-                breaks += 1
+        # ---- the database the implementation loads (private copy; on x86 with the synthetic entries of synthisa)
+        sem = ISASemantics(isa)
+        enc = tie_database(ctx, isa, os.path.join(ctx.env.data, "isa", isa + ".yml"), sem, opclass)
+        kernels = []
+        for t in range(n // 2):
+            kind = t % 11
+            if kind < 4:
+                gen = dgenc.gen_x86_kernel if isa == "x86" else dgenc.gen_a64_kernel
+                kernels.append((gen(rng, rng.randint(2, 10), mem=True, npool=rng.choice([2, 3, 4])), "dgenc"))
+            elif kind < 5:
+                kernels.append(((dgenc.gen_memdep_x86 if isa == "x86" else dgenc.gen_memdep_a64)(rng)[0], "memdep"))
+            elif kind < 7:
+                kernels.append((roles.gen(rng, isa, rng.randint(2, 8), npool=rng.choice([2, 3, 4]))[0], "vocabulary"))
+            elif kind < 9 and syn_forms and isa == "x86":
+                kernels.append((synthisa.gen_kernel(rng, syn_forms, rng.randint(2, 8), npool=rng.choice([2, 3]))[0], "synthetic-isa"))
+            else:
+                kernels.append((extra_lines(rng, isa), "targeted"))
+        compare(ctx, isa, sem, parsers[isa], enc, kernels, tally)
+        # ---- the same database plus synthetic entries that carry the translated operations on arbitrary forms
+        zz = zz_forms(rng, isa, sorted(opclass))
+        path = os.path.join(ctx.env.work, "zzisa_%s.yml" % isa)
+        with open(os.path.join(ctx.env.data, "isa", isa + ".yml"), encoding="utf-8") as f:
+            text = f.read()
+        with open(path, "w", encoding="utf-8") as f:
+            f.write(text.rstrip("\n") + "\n" + zz_yaml(isa, zz))
+        semz = ISASemantics(isa, path_to_yaml=path)
+        encz = tie_database(ctx, isa, path, semz, opclass)
+        compare(ctx, isa, semz, parsers[isa], encz,
+                [(zz_kernel(rng, isa, zz, rng.randint(2, 6)), "synthetic-operations") for _ in range(max(20, n // 6))], tally)
     ctx.cov["roles_correspondence"] = {k: v for k, v in ctx.counts.items() if k.startswith(("roles_", "reg_changes_", "isa_entries"))}
-    ctx.log("roles: %d instructions compared (%d with src_dst, %d with hidden operands, %d known register changes, %d post-indexed); "
-            "%d ISA entries tied" % (ctx.counts.get("roles_instructions", 0), ctx.counts.get("roles_with_src_dst", 0),
-                                     ctx.counts.get("roles_with_hidden", 0), ctx.counts.get("reg_changes_known", 0),
-                                     ctx.counts.get("reg_changes_postindexed", 0), ctx.counts.get("isa_entries_compared", 0)))
+    ctx.log("roles: %d instructions compared (%d with src_dst, %d with hidden operands; register changes: %d known, %d raise, "
+            "%d post-indexed); %d ISA entries tied, %d disagreements"
+            % (ctx.counts.get("roles_instructions", 0), ctx.counts.get("roles_with_src_dst", 0), ctx.counts.get("roles_with_hidden", 0),
+               ctx.counts.get("reg_changes_known", 0), ctx.counts.get("reg_changes_raise", 0),
+               ctx.counts.get("reg_changes_postindexed", 0), ctx.counts.get("isa_entries_compared", 0), tally.breaks))
